@@ -209,6 +209,22 @@ def case_C15(seed):
     lat0, lon0 = rnd.choice([a for a in ANCHORS if abs(a[0]) < 60])
     lon0 = rnd.choice([lon0, 0.0, 120.0, -75.0, 179.0])
     s = rnd.choice([10.0, 50.0, 100.0, 250.0])        # metres per grid unit
+    if seed % 4 == 2:
+        # decimetre geometry: fixes a few decimetres from a node (a stop at a junction) and fixes that hardly move
+        s = 10.0
+        pts_ = [v[0] for v in case['graph'].values()]
+        tr_ = []
+        for p in case['trace']:
+            r_ = rnd.random()
+            if r_ < 0.4:
+                q = rnd.choice(pts_)
+                tr_.append((q[0] + rnd.choice([-0.035, -0.02, 0.02, 0.03]), q[1] + rnd.choice([-0.03, -0.02, 0.025, 0.035])))
+            elif r_ < 0.6 and tr_:
+                tr_.append((tr_[-1][0] + rnd.choice([0.01, 0.02, -0.02]), tr_[-1][1] + rnd.choice([0.015, -0.01, 0.03])))
+            else:
+                tr_.append(p)
+        case['trace'] = tr_
+        case['cfg']['obs_noise'] = rnd.choice([0.09, 0.2])
     origin = (lat0, lon0)
 
     def to_ll(p):
@@ -245,6 +261,11 @@ def case_C15(seed):
     n_ = len(tr_xy)
     lp_ = abs(b['best']) if b['best'] is not None else 0.0
     tol_abs = 1e-3 + e_ * math.sqrt(4 * n_ * lp_) + n_ * e_ * e_
+    if cfg['family'] == 'distance':
+        # the transition term of this family uses the distance between two PROJECTED positions; the geodesic projection is
+        # only resolved to about 0.12 m along the segment (acos near 1, see C14), the planar one is exact
+        e2_ = 0.24 / ((cfg.get('dist_noise') or cfg.get('obs_noise')))
+        tol_abs += e2_ * math.sqrt(4 * n_ * lp_) + n_ * e2_ * e2_
     if a['idx'] != b['idx'] or (a['best'] is not None and not close(a['best'], b['best'], 2e-3, tol_abs)):
         # knife edge: a discrete penalty decision (ti comparison / projection exactly on an end point) within margin
         if knife_edge_ti(g_xy, tr_xy):
